@@ -1,6 +1,8 @@
 import BoxoModel.C02.LemmasTwoQ
 import BoxoModel.C02.LemmasBloom
 import BoxoModel.C02.LemmasConc3
+import BoxoModel.C02.LemmasTQC3
+import BoxoModel.Gen.C02
 /-!
 # C02 — Caching blockstore layers are observationally transparent
 
@@ -166,6 +168,81 @@ theorem c02_bloom_activation_window_counterexample :
   decide
 
 end Conc
+
+/-! ## every interleaving of the 2Q cache layer (small-step model `ConcTQ.lean`) -/
+
+namespace TQC
+
+/-- **TQInv under concurrency**: in every reachable state (any number of concurrent Has/Get/GetSize/
+Put/DeleteBlock/PutMany calls, any interleaving, arbitrary eviction) every cached entry agrees with
+the store, except for keys that are *dirty*: a writer holding the key's lock has written the store
+and not yet updated the cache (it has not returned). -/
+theorem c02_tq_conc_inv (sz : Nat → Nat) {s : St} (hr : Steps.Reach (TQC.step sz) TQC.init s)
+    (k : Nat) (e : Entry) (hk : s.cache k = some e) : agr (present s k) e ∨ dirty s k = true :=
+  (Inv.reachable hr).ci k e hk
+
+/-- **Justified answers**: every completed Has/Get/GetSize answered, at one of its own steps, what the
+store held at that moment — or the key was dirty then (its writer had not returned).  Cache hits
+taken *before* the per-key lock are included: that is the mechanism the property names. -/
+theorem c02_tq_justified (sz : Nat → Nat) {s : St} (hr : Steps.Reach (TQC.step sz) TQC.init s)
+    (t : Nat) (th : Thread) (ht : s.threads[t]? = some th) (kind : RKind) (k : Nat) (hp : th.prog = .read kind k)
+    (a : Bool) (hd : th.pc = .done a) : th.just = true :=
+  ((Inv.reachable hr).thr t th ht).js a hd (by rw [hp]; simp [readKey])
+
+/-- The per-key RW lock: a key held by a writer has no readers, the writer is unique (it is a
+function of the key), and whoever is in a reader / writer section holds the lock. -/
+theorem c02_tq_lock_exclusion (sz : Nat → Nat) {s : St} (hr : Steps.Reach (TQC.step sz) TQC.init s)
+    (k w : Nat) (hw : s.writer k = some w) :
+    s.rholders k = [] ∧ ∃ th, s.threads[w]? = some th ∧ holdsW th.prog th.pc k = true :=
+  ⟨(Inv.reachable hr).ex k w hw, (Inv.reachable hr).wv k w hw⟩
+
+/-- PutMany holds the write lock of every key of its batch from before the store write until after
+the cache update of that key, and the batch it locks is duplicate-free (so it never blocks on itself). -/
+theorem c02_tq_putmany_locks (sz : Nat → Nat) {s : St} (hr : Steps.Reach (TQC.step sz) TQC.init s)
+    (t : Nat) (th : Thread) (ht : s.threads[t]? = some th) (todo held : List Nat) (hp : th.pc = .mCache todo held) :
+    held.Nodup ∧ (∀ k, k ∈ held → s.writer k = some t ∧ present s k = true) := by
+  have hT := (Inv.reachable hr).thr t th ht
+  refine ⟨hT.mh todo held hp, fun k hk => ⟨hT.wl k ?_, (hT.mc todo held hp).1 k hk⟩⟩
+  have hpk := hT.pk
+  rw [hp] at hpk ⊢
+  cases hpg : th.prog <;> simp [hpg, progOK] at hpk
+  simpa [holdsW] using hk
+
+end TQC
+
+/-! ## T-gen-4: the order of shared-memory accesses in the Go source
+
+`BoxoModel/Gen/C02.lean` is regenerated on every run by `extract steps` (go/ast) from
+`blockstore/bloom_cache.go` and `twoqueue_cache.go`: per function the ordered list of accesses to
+the atomics, the build mutex, the filter, the 2Q cache, the per-key lock and the wrapped store.
+The small-step models declare which access each program counter stands for; these theorems compare
+the two.  Re-ordering, dropping or adding an access in the Go source (e.g. reading `active` before
+loading the filter pointer, or updating the cache before the store) makes them fail. -/
+
+theorem c02_steps_bloom :
+    Gen.C02.bloomcache_hasCached = Conc.accesses false (.read .has none) Conc.pcsHasCached ∧
+    Gen.C02.bloomcache_Put = Conc.accesses false (.put []) Conc.pcsPut ∧
+    Gen.C02.bloomcache_PutMany = Conc.accesses true (.put []) Conc.pcsPut ∧
+    Gen.C02.bloomcache_Rebuild = Conc.accesses false .rebuild Conc.pcsRebuildHead ++ ["call populate"] ++
+      Conc.accesses false .rebuild [.bActivate] ∧
+    Gen.C02.bloomcache_build = Conc.accesses false .build Conc.pcsBuildHead ++ ["call populate"] ++
+      Conc.accesses false .build [.bActivate] ∧
+    Gen.C02.bloomcache_populate = Conc.accesses false .rebuild Conc.pcsPopulate ∧
+    Gen.C02.bloomcache_Has = "call hasCached" :: Conc.accesses false (.read .has none) [.rPass] ∧
+    Gen.C02.bloomcache_Get = "call hasCached" :: Conc.accesses false (.read .get none) [.rPass] ∧
+    Gen.C02.bloomcache_GetSize = "call hasCached" :: Conc.accesses false (.read .size none) [.rPass] ∧
+    Gen.C02.bloomcache_DeleteBlock = "call hasCached" :: Conc.accesses false (.del none) [.rPass] := by
+  decide
+
+/-- the error paths (`cacheInvalidate` after a failed store call) are not in the concurrent model -/
+theorem c02_steps_tq :
+    Gen.C02.tqcache_Has = TQC.accesses (.read .has 0) TQC.pcsRead ∧
+    Gen.C02.tqcache_Get = TQC.accesses (.read .get 0) TQC.pcsRead ∧
+    Gen.C02.tqcache_GetSize = TQC.accesses (.read .size 0) TQC.pcsRead ∧
+    Gen.C02.tqcache_Put.filter (· != "cache.Remove") = TQC.accesses (.put 0) TQC.pcsWrite ∧
+    Gen.C02.tqcache_DeleteBlock.filter (· != "cache.Remove") = TQC.accesses (.del 0) TQC.pcsWrite ∧
+    Gen.C02.tqcache_PutMany = TQC.accesses (.putMany []) TQC.pcsPutMany := by
+  decide
 
 /-! ## non-vacuity -/
 
